@@ -134,8 +134,10 @@ theorem trap_listing_reparse (cond : String) (hc : cond ∈ Listing.condOrder) (
     have h1 : quote "trap".toList = "trap".toList := by decide
     have h2 : quote "--".toList = "--".toList := by decide
     have h3 : "trap -- ".toList = "trap".toList ++ ' ' :: ("--".toList ++ [' ']) := by decide
-    simp only [Listing.printTrap, List.map_cons, List.map_nil, joinSp, h1, h2, hq, h3, List.append_assoc,
-      List.cons_append, List.nil_append]
+    unfold Listing.printTrap
+    simp only [List.map_cons, List.map_nil, joinSp, h1, h2, hq]
+    rw [h3]
+    simp only [List.append_assoc, List.cons_append, List.nil_append]
   rw [e, dropNl_append_nl]
   exact h
 
